@@ -128,12 +128,17 @@ func runPolicyCase(w *out.W, mu *sync.Mutex, id string, c polCase) {
 		it := "int"
 		os.WriteFile(filepath.Join(dir, "from.hcl"), []byte(polHCL(c.from, it)), 0o644)
 		os.WriteFile(filepath.Join(dir, "to.hcl"), []byte(polHCL(c.to, it)), 0o644)
-		r := clirun.Run(dir, nil, "verif-diffopts", "-c", "file://atlas.hcl", "--dialect", dialect, "--from", "from.hcl", "--to", "to.hcl", "--seq", strings.Join(append([]string{"-"}, c.seq...), ";"))
+		r := clirun.Run(dir, nil, "verif-diffopts", "-c", "file://atlas.hcl", "--dialect", dialect, "--from", "from.hcl", "--to", "to.hcl", "--seq", "-;"+strings.Join(c.seq, ";")+";-")
 		lines := strings.Split(strings.TrimSpace(r.Stdout), "\n")
-		if r.Exit != 0 || len(lines) != len(c.seq)+1 {
-			viol = append(viol, [2]string{"policy-hook-failed", fmt.Sprintf("%s: exit %d, %d lines for %d steps: %s", dialect, r.Exit, len(lines), len(c.seq)+1, strings.TrimSpace(r.Stderr))})
+		if r.Exit != 0 || len(lines) != len(c.seq)+2 {
+			viol = append(viol, [2]string{"policy-hook-failed", fmt.Sprintf("%s: exit %d, %d lines for %d steps: %s", dialect, r.Exit, len(lines), len(c.seq)+2, strings.TrimSpace(r.Stderr))})
 			continue
 		}
+		// the unfiltered change set before and after the sequence: nothing of the policies stays in the differ
+		if last := lines[len(lines)-1]; last != lines[0] {
+			viol = append(viol, [2]string{"policy-state-leaks", fmt.Sprintf("%s: a diff without policy gives %s after the sequence %v; before it gave %s", dialect, last, c.seq, lines[0])})
+		}
+		lines = lines[:len(lines)-1]
 		all := parsePol(lines[0])
 		first := map[string]string{}
 		for i, step := range c.seq {
